@@ -490,7 +490,7 @@ func (w *worker) process(jb *job) (replayed, skipped, changing int64, ok bool) {
 				initRaw = jb.init.Raw
 			}
 			for _, dv := range d {
-				w.col.add(dv, Example{Init: initRaw, State: jb.state.Raw, History: nil, Call: "(initial state)", Expected: jb.state.Raw, Detail: dv.Detail})
+				w.col.add(dv, Example{Init: initRaw, State: jb.state.Raw, History: []string{}, Call: "(initial state)", Expected: jb.state.Raw, Detail: dv.Detail})
 			}
 		}
 		in.Close()
